@@ -120,12 +120,23 @@ EXPLANATION = (
     "data, BOUNDED in n. Backward stability (rounding) not decided; DiagonalSolver not covered.")
 
 
+def tridiag_replay_cb(job, key, label, rec):
+    """CBMC's SMT back end does not print the real values of a counterexample; the replay runs the real
+    SymmetricTridiagonalSolver<double> on the job's dimension / cyclic flag with a deterministic battery of SPD systems
+    (native/replay_tridiag.cpp)"""
+    import vlib
+    m = re.search(r"C14\.(cyclic|tridiagonal)\[n=(\d+)\]", job.name)
+    if not m:
+        return None
+    return vlib.native_driver("replay_tridiag", [int(m.group(2)), int(m.group(1) == "cyclic")])
+
+
 def run(tier, seed, work):
     import vlib
     rep = vlib.Report("C14", tier, seed)
     jobs = build_jobs(tier, seed)
     vlib.run_jobs(jobs, work)
-    rep.absorb(jobs)
+    rep.absorb(jobs, replay_cb=tridiag_replay_cb)
     rep.extraction = {"rules_fired": jobs[0].rules.summary(), "body_sha256_16": jobs[0].hashes}
     rep.trusted = ["double treated as mathematical real", "CBMC 6.11 + z3 5.1", "extractor rules", "SPD => no zero pivot (textbook)"]
     rep.assumptions = ["bounded in n (listed)", "division-by-zero checks replaced by the non-zero-pivot restriction"]
